@@ -220,6 +220,11 @@ def main() -> int:
             ox = {json.dumps(a["value"], sort_keys=True): (("exc",) if x.get("exc") else ("ok", json.dumps(x.get("e"), sort_keys=True), json.dumps((x.get("attrs") or {}).get("p"), sort_keys=True))) for a, x in obs.get((ci, "X"), []) if not x.get("action_exc")}
             oy = {json.dumps(a["value"], sort_keys=True): (("exc",) if x.get("exc") else ("ok", json.dumps(x.get("e"), sort_keys=True), json.dumps((x.get("attrs") or {}).get("p"), sort_keys=True))) for a, x in obs.get((ci, "Y"), []) if not x.get("action_exc")}
             ev.count("decode_probes_compared", len(ox))
+            for order_ in ("X", "Y"):
+                broken = next((x["action_exc"] for a, x in obs.get((ci, order_), []) if x.get("action_exc")), None)
+                if broken and broken.get("type") in ("SyntaxError", "NameError", "ImportError", "ModuleNotFoundError", "AttributeError", "TypeError"):
+                    vd.violation(f"composed_model_unusable:{broken.get('type')}:{pairkey}", f"allOf over {k1}/{k2} (order {order_}, variant {case['variant']}) was generated but cannot be imported / used: {broken.get('msg', '')[:160]}", w)
+                    break
             # conjunction soundness where the generated type validates (enums): an accepted value must be valid for *both* members
             if px["kind"] in ("EnumProperty", "LiteralEnumProperty") and "enum" in KINDS[k1] and "enum" in KINDS[k2]:
                 for probe, o in ox.items():
